@@ -332,14 +332,19 @@ def r3_every_segment(ctx):
         c = [x for x in g.walk_exprs(gen[0]) if isinstance(x, ast.Call) and A.call_target(x) == ('html', 'gen_seg')][0]
         lst = path_of(c.args[2]) if len(c.args) > 2 else None
         apps = []
+        cur_name = 'err_iter'
+        cursors = {path_of(s_.targets[0]) for s_ in ast.walk(fn) if isinstance(s_, ast.Assign) and len(s_.targets) == 1 and isinstance(s_.value, ast.Call)
+                   and A.call_target(s_.value)[1] == 'err_iter'} | {'err_iter'}
         for x in ast.walk(fn):
             if isinstance(x, ast.Call) and lst and A.call_target(x) == (lst, 'append') and x.args:
                 v = x.args[0]
                 if isinstance(v, ast.Name):
                     defs = [s_.value for s_ in ast.walk(fn) if isinstance(s_, ast.Assign) and path_of(s_.targets[0]) == v.id]
                     v = defs[0] if len(defs) == 1 else v
-                if isinstance(v, ast.Call) and A.call_target(v) == ('err_iter', 'get_cur_node'):
+                # the cursor is whatever object is bound from err_iter(errh); its name does not matter
+                if isinstance(v, ast.Call) and A.call_target(v)[1] == 'get_cur_node' and A.call_target(v)[0] in cursors:
                     apps.append(x)
+                    cur_name = A.call_target(v)[0]
         if len(apps) != 1:
             why = 'the list passed to gen_seg is not filled from err_iter.get_cur_node() (%d such appends)' % len(apps)
         else:
@@ -348,7 +353,7 @@ def r3_every_segment(ctx):
                 why = 'the cursor is read once, not until its end'
             elif A.const(w.test) is not True:
                 why = 'the collection loop runs only while `%s`: errors reported while that is false are not collected for this segment' % norm(w.test)
-            elif not any(isinstance(x, ast.Call) and path_of(x.func) == 'next' and x.args and path_of(x.args[0]) == 'err_iter' for x in ast.walk(w)):
+            elif not any(isinstance(x, ast.Call) and path_of(x.func) == 'next' and x.args and path_of(x.args[0]) == cur_name for x in ast.walk(w)):
                 why = 'the collection loop does not advance the cursor'
             else:
                 exits = [x for x in ast.walk(w) if isinstance(x, (ast.Break, ast.Return))]
